@@ -239,8 +239,12 @@ def classify(r):
     """outcome class of an abnormal end: assert (reported by FEAT), resource (allocation refused), or the raw outcome"""
     oc = r.get("outcome")
     err = r.get("stderr") or ""
-    if oc == "abort" and "ASSERTION FAILED" in err:
+    # XASSERT prints ">>> FATAL ERROR: ASSERTION FAILED: ...", XABORTM ">>> FATAL ERROR: <message>" (kernel/util/assertion.hpp):
+    # both are FEAT's way of reporting with a message before terminating (DESIGN 3.3 abort(message))
+    if oc == "abort" and ">>> FATAL ERROR:" in err:
         return "assert"
+    if oc == "exit99" and re.search(r"==\d+== (Invalid (write|read|free)|Mismatched free|Process terminating|Jump to the invalid)", err):
+        return "memcheck"
     if oc == "sanitizer" and ("exceeds maximum supported size" in err or "allocation-size-too-big" in err or "out of memory" in err
                               or "out-of-memory" in err):
         return "resource"
@@ -261,6 +265,10 @@ def sig(c, r):
     s = sig0(c, r)
     if r.get("outcome") == "sanitizer":
         s["san"], s["where"] = san_kind(r)
+    if s.get("got") == "memcheck":
+        m = re.search(r"==\d+== (Invalid \w+ of size \d+|Invalid free|Mismatched free)", r.get("stderr") or "")
+        w = re.search(r"(?:at|by) 0x[0-9A-F]+: (FEAT::[\w:]+)", r.get("stderr") or "")
+        s["san"], s["where"] = (m.group(1) if m else ""), (w.group(1) if w else "")
     if str(s.get("got", "")).startswith("std:"):
         # undocumented std exception: its message (numbers blanked) is part of the signature, so that a known-finding
         # entry for one such exception cannot absorb a different one
@@ -302,6 +310,25 @@ def key(c):
     if t == "fuzz":
         return json.dumps(["fuzz", c["name"], c["seed"]])
     return json.dumps(c, sort_keys=True)
+
+
+# ------------------------------------------------------------------------------------------------------------------
+# memcheck pass.  The parsers store every number through std::istream::operator>> (String::parse), i.e. the store is
+# executed inside libstdc++, which the ASan build does not instrument: a write past the end of a counted array is seen by
+# ASan only if it happens to destroy the allocator's chunk header behind the redzone (8..16 bytes are not enough).  The
+# mutations that give MORE entries than declared are therefore replayed a second time in the plain build under valgrind
+# (address errors only), which checks every store of every library byte-exactly.
+# ------------------------------------------------------------------------------------------------------------------
+def over_declared(kind):
+    return kind in ("dup_data", "count", "chart_count", "token_count") or kind.startswith("dup_block")
+
+
+def memcheck_wrapper():
+    vg = shutil.which("valgrind")
+    return [vg, "-q", "--error-exitcode=99", "--exit-on-first-error=yes", "--undef-value-errors=no"] if vg else None
+
+
+MEMCHECK_ENV = {"C11_NO_RLIMIT": "1"}
 
 
 FUZZ_ALLOWED = ("assert", "resource")   # abnormal ends that are a *report*: FEAT assertion message / refused allocation
@@ -403,12 +430,19 @@ def run(chk):
     stats = {}
     try:
         # documents and shipped files: plain build; every mutant: ASan + UBSan build
-        batches = [(std, list(docs.values()) + fcases, 120, None),
-                   (asan, mut_cases + scases + ini_cases + graph_cases, 90, ASAN_ENV),
-                   (asan, zcases, 90, ASAN_ENV)]
-        for binary, cases, tmo, env in batches:
-            res = vlib.run_cases(binary, cases, tmo=tmo, env=env)
-            judge(chk, cases, res, "c11_meshfile" + (" (asan)" if binary == asan else ""), stats, docs)
+        batches = [(std, list(docs.values()) + fcases, 120, None, None),
+                   (asan, mut_cases + scases + ini_cases + graph_cases, 90, ASAN_ENV, None),
+                   (asan, zcases, 90, ASAN_ENV, None)]
+        vg = memcheck_wrapper()
+        vcases = [c for c in mut_cases if over_declared(c["m"]["kind"])]
+        if vg:
+            batches.append((std, vcases, 600, MEMCHECK_ENV, vg))
+        else:
+            vlib.log("  [C11] valgrind not found: memcheck pass of the %d over-declared-count mutations skipped" % len(vcases))
+        chk.extra["memcheck_cases"] = len(vcases) if vg else "valgrind not available"
+        for binary, cases, tmo, env, wrapper in batches:
+            res = vlib.run_cases(binary, cases, tmo=tmo, env=env, wrapper=wrapper)
+            judge(chk, cases, res, "c11_meshfile" + (" (memcheck)" if wrapper else " (asan)" if binary == asan else ""), stats, docs)
             if cases and cases[0]["t"] == "doc":
                 nok = 0
                 for c, r in zip(cases, res):
@@ -467,7 +501,8 @@ def run(chk):
         "conformal 2D/3D types count as rejected",
         "a declared count is an allocation request: std::bad_alloc / std::length_error / a refused allocation (sanitizer max_allocation_size_mb=1024, "
         "RLIMIT_AS 6 GB) is classified as `resource` and accepted as a rejection in the byte-level part (Total), not in the structured part",
-        "termination by a FEAT assertion message (XASSERT) counts as a report (DESIGN 3.3) in the byte-level part and for truncated graph buffers",
+        "termination by a FEAT message (XASSERT / XABORTM: '>>> FATAL ERROR: ...', e.g. 'Facet 2 is shared by cells 1, 3 and again by 3' for a "
+        "non-manifold SurfaceMesh triangulation) counts as a report (DESIGN 3.3) in the byte-level part and for truncated graph buffers",
         "Permutation has no serialisation API in the pinned tree; CGALSurfaceMesh charts (third-party CGAL, created from an .off file by the "
         "application, no mesh file markup) are not covered",
         "every structured mutation (mesh file, PropertyMap, graph) and every byte-level mutant is replayed in the ASan+UBSan build: a sanitizer "
@@ -495,7 +530,8 @@ def replay(obj):
                     json.dump(rp["doc"], f)
                 c["docs"] = ddir
             binary = asan if "asan" in (rp.get("harness") or "") else std
-            r = vlib.run_cases(binary, [c], tmo=120, shards=1, env=ASAN_ENV if binary == asan else None)[0]
+            vg = memcheck_wrapper() if "memcheck" in (rp.get("harness") or "") else None
+            r = vlib.run_cases(binary, [c], tmo=600 if vg else 120, shards=1, env=ASAN_ENV if binary == asan else MEMCHECK_ENV if vg else None, wrapper=vg)[0]
             c.pop("text", None)
             print(json.dumps({"sig": sig(c, r), "case": c, "result": r})[:1500])
             if r.get("ok") is not True:
